@@ -291,7 +291,6 @@ Fill(p) ==
 Cleanup(id) ==
     /\ cache' = [k \in PlainKeys |-> IF k[1] = id THEN None ELSE cache[k]]
     /\ lbc' = [k \in LbKeys |-> IF k[1] = id THEN None ELSE lbc[k]]
-    /\ \/ cache' # cache \/ lbc' # lbc
     /\ UNCHANGED <<desc, idx, ltc, pend, nupd>>
 
 (* The update kinds of the property's quantifier. *)
@@ -325,7 +324,7 @@ Next == \/ AnyUpdate
         \/ \E p \in Readers, id \in Ident, size \in Sizes : QueryPlain(p, id, size)
         \/ \E p \in Readers, id \in Ident, size \in Sizes, L \in Lookbacks, now \in Times : QueryLb(p, id, size, L, now)
         \/ \E p \in Readers : Fill(p)
-        \/ \E id \in Ident : Cleanup(id)
+        \/ \E id \in Ident : Cleanup(id) /\ (cache' # cache \/ lbc' # lbc)
 
 Spec == Init /\ [][Next]_vars
 
